@@ -229,6 +229,22 @@ def payloadStep (op : String) (args : List String) : Option String :=
     let lower := fun (n : List Nat) => n.map (fun c => if 65 ≤ c ∧ c ≤ 90 then c + 32 else c)
     let r := Payload.loadFrozen ts
     pure (showTags (Payload.exportFrozen lower es ns) ++ "|" ++ showHandles (Payload.handlesToNames es r.1) ++ "|" ++ showTags r.2)
+  | "pcols", [hd, hi, hw, tags] => do
+    let d ← parseBool hd
+    let i ← parseBool hi
+    let w ← parseBool hw
+    let ts ← parseList parseTag tags
+    -- the generator keeps total_width at 0.0 whenever the count has to be recomputed from the widths: it stays 0
+    let r := Payload.loadCols (fun _ _ _ => 0) d i w ts
+    let c := r.c
+    let so3 := fun (o : Option P3) => match o with | some p => showP3 p | none => "N"
+    let son := fun (o : Option Nat) => match o with | some n => toString n | none => "N"
+    pure (s!"{c.ctype},{c.count},{c.autoH},{c.revFlow},{c.definedH},{c.width},{c.gutter},{c.totalW},{c.totalH},[{showNatsC c.heights}]|{so3 r.dir}|{so3 r.ins}|{son r.w}")
+  | "pltr12", [tags] => do
+    let ts ← parseList parseTag tags
+    let sumAbsF := fun (l : List Tag) =>
+      (l.foldl (fun (acc : Float) t => acc + Float.abs (Float.ofBits (dblOf t.val).toUInt64)) 0.0).toBits.toNat
+    pure (showTags (Payload.ltypeR12 sumAbsF ts))
   | "pseeds", [tags] => do
     let ts ← parseList parseTag tags
     let r := Payload.loadSeeds [] ts
